@@ -319,6 +319,10 @@ class _NullFlow(object):
                 k = key_of(n.kids[0])
                 if k in state and state[k] == M:
                     bad.append((n, k, 'dereferenced (->%s) in condition' % n.name))
+            if n.kind == 'ArraySubscriptExpr' or (n.kind == 'UnaryOperator' and n.op == '*'):
+                k = key_of(n.kids[0])
+                if k in state and state[k] == M:
+                    bad.append((n, k, 'dereferenced in condition'))
             if n.kind == 'CallExpr' and callee_name(n) != '__builtin_expect':
                 for a in n.kids[1:]:
                     k = key_of(a)
@@ -375,19 +379,53 @@ def safe_allocators(prog):
     return safe
 
 
+def allocator_classes(prog):
+    """(safe, unsafe): pointer-returning functions that hand on an allocation result - `safe` if every return is
+    tested (NULL -> m4ri_die), `unsafe` if a possibly-NULL result can be returned; fixpoint over wrappers of wrappers."""
+    safe, unsafe = {}, set()
+    changed = True
+    rounds = 0
+    while changed and rounds < 8:
+        changed = False
+        rounds += 1
+        for f in prog.all_funcs():
+            if f.name in safe or f.name in unsafe or not type_is_pointer(f.rettype):
+                continue
+            srcs = set(RAW_ALLOC) | unsafe
+            if not any((callee_name(c) in srcs or callee_name(c) in OUTPARAM_ALLOC) for c in f.body.find('CallExpr')):
+                continue
+            fl = _NullFlow(prog, f, srcs, set(safe)).run()
+            if not fl.sites and not fl.untracked:
+                continue
+            rets = fl.returns
+            direct = [c for c in fl.untracked]     # `return malloc(..)` style
+            if fl.violations:
+                continue      # reported by E3 itself
+            if (rets and any(st == M for (_r, _k, st) in rets)) or direct or (fl.null_returns and fl.sites):
+                unsafe.add(f.name)
+                changed = True
+            elif rets and all(st in (N, T) for (_r, _k, st) in rets):
+                safe[f.name] = dict(conjuncts=sorted(fl.conjuncts), sites=len(fl.sites))
+                changed = True
+    return safe, unsafe
+
+
 def rule_E3(ctx, prog, label):
     rr = RuleResult('E3', 'every raw libc allocation result is NULL-tested (failing edge -> m4ri_die) before first use, on every path')
     nsites = 0
+    safe_, unsafe_ = allocator_classes(prog)
+    rr.extra['allocators_that_may_return_null'] = sorted(unsafe_)
+    srcs_ = set(RAW_ALLOC) | unsafe_
     for f in prog.all_funcs():
-        if not any(callee_name(c) in RAW_ALLOC or callee_name(c) in OUTPARAM_ALLOC for c in f.body.find('CallExpr')):
+        if not any(callee_name(c) in srcs_ or callee_name(c) in OUTPARAM_ALLOC for c in f.body.find('CallExpr')):
             continue
-        fl = _NullFlow(prog, f, set(RAW_ALLOC), set()).run()
+        fl = _NullFlow(prog, f, srcs_, set()).run()
         viol_by_site = {}
         for (n, k, how, origin) in fl.violations:
-            viol_by_site.setdefault((origin.uid if origin is not None else None, k), []).append((n, how))
+            viol_by_site.setdefault(origin.uid if origin is not None else None, []).append((n, how + (' (through the copy `%s`)' % k)))
         for (c, k, cn) in fl.sites:
             nsites += 1
-            v = viol_by_site.get((c.uid, k))
+            v = viol_by_site.get(c.uid)
             # which test discharges it: for the sample
             fnd = None
             if v:
@@ -424,10 +462,10 @@ def rule_E3_third_party(ctx, prog, label):
         fl = _NullFlow(prog, f, set(THIRD_PARTY_CTOR), set()).run()
         vs = {}
         for (nn, k, how, origin) in fl.violations:
-            vs.setdefault((origin.uid if origin is not None else None, k), []).append((nn, how))
+            vs.setdefault(origin.uid if origin is not None else None, []).append((nn, how))
         for (c, k, cn) in fl.sites:
             n += 1
-            v = vs.get((c.uid, k))
+            v = vs.get(c.uid)
             fnd = None
             if v:
                 nn, how = v[0]
@@ -447,7 +485,7 @@ def rule_E3_third_party(ctx, prog, label):
 def rule_E3_census(ctx, prog, label):
     """Who allocates: every other allocation request goes through a wrapper for which E3 holds."""
     rr = RuleResult('E3-census', 'every allocation request is a raw call (E3), a safe wrapper call, or a third-party constructor')
-    safe = safe_allocators(prog)
+    safe, _unsafe = allocator_classes(prog)
     rr.extra['safe_wrappers'] = safe
     for w in ('m4ri_mm_malloc', 'm4ri_mm_calloc', 'm4ri_mm_malloc_aligned'):
         if w not in prog.funcs:
